@@ -462,8 +462,8 @@ def check_matrix_ops(spec, ctx):
     else:
         x = _dyadic(rng, N)
     ctx.flag("x_" + kind)
+    xr = np.array(x, dtype=float)            # independent copy taken before the call
     y = ctx.sut(X.dot, x, what="dot[%s]" % kind)
-    xr = np.asarray(x, dtype=float)
     ctx.close("dot", y, A @ xr, rtol=8 * (N + 1) * EPS, atol=1e-300, scale=np.abs(A) @ np.abs(xr),
               what="dot (x kind %s)" % kind)
     ctx.close("dot_input_unchanged", x, xr, rtol=0, atol=0)
